@@ -2,11 +2,13 @@ module verifharness
 
 go 1.26.0
 
-require github.com/Query-farm/vgi-rpc-go v0.0.0
+require (
+	github.com/Query-farm/vgi-rpc-go v0.0.0
+	github.com/apache/arrow-go/v18 v18.6.0
+)
 
 require (
 	github.com/andybalholm/brotli v1.2.2 // indirect
-	github.com/apache/arrow-go/v18 v18.6.0 // indirect
 	github.com/apache/thrift v0.24.0 // indirect
 	github.com/goccy/go-json v0.10.6 // indirect
 	github.com/google/flatbuffers v25.12.19+incompatible // indirect
